@@ -33,6 +33,8 @@ Types == << [name |-> "@RecLast", n |-> RecLast], [name |-> "@RecFirst", n |-> R
             [name |-> "@Dir", n |-> Obj(<<P(Kc, Arr(<<Obj(<<SC("@K", Ref(<<"@Dir">>, <<>>))>>, <<>>)>>, <<>>))>>, <<>>)],
             \* a recursive array item that is followed by another item (items are matched by position)
             [name |-> "@Kids", n |-> Obj(<<P(Kc, Arr(<<Ref(<<"@Kids">>, <<>>), One>>, <<>>))>>, <<>>)], [name |-> "@Pair", n |-> Arr(<<Ref(<<"@Pair">>, <<>>), Ref(<<"@I">>, <<>>)>>, <<>>)],
+            \* a key type whose example is also a named key of the object that uses it
+            [name |-> "@KE2", n |-> Lit(StrD(Sa), <<R("enum", [t |-> "list", items |-> <<[t |-> "val", v |-> StrD(Sa)], [t |-> "val", v |-> StrD(Sb)]>>])>>)],
             [name |-> "@KQ", n |-> Lit(StrD(<<97, 34>>), <<>>)], [name |-> "@KB", n |-> Lit(StrD(<<34, 97, 92>>), <<>>)] >>     \* a"  and  "a\
 Env == [types |-> Types, enums |-> <<[name |-> "@E", items |-> <<NumD(N1), StrD(Sa)>>]>>]
 NamedE == R("enum", [t |-> "name", s |-> "@E"])
@@ -52,6 +54,7 @@ Roots == { Obj(<<P(KQuote, One)>>, <<>>), Obj(<<P(KCtl, One)>>, <<>>), Obj(<<P(K
            \* a named enum rule (the one rule value written as a bare @name), last / first / only rule of its object
            Obj(<<P(Ka, Lit(NumD(N1), <<OptR, NamedE>>)), P(Kb, Two)>>, <<>>), Obj(<<P(Ka, Lit(StrD(Sa), <<NamedE, OptR>>))>>, <<>>), Lit(NumD(N1), <<NamedE>>),
            Arr(<<Lit(StrD(Sa), <<NamedE>>)>>, <<>>),
+           Obj(<<P(Ka, Two), SC("@KE2", One)>>, <<>>),
            Ref(<<"@Kids">>, <<>>), Ref(<<"@Pair">>, <<>>), Arr(<<Ref(<<"@Pair">>, <<>>), Ref(<<"@Kids">>, <<>>)>>, <<>>),
            \* the rule type: "mixed" written out next to a type shortcut
            Ref(<<"@I", "@K">>, <<R("type", IdV("mixed"))>>), Ref(<<"@I", "@K">>, <<>>), Obj(<<P(Ka, Ref(<<"@K", "@I">>, <<R("type", IdV("mixed")), OptR>>))>>, <<>>),
